@@ -162,6 +162,15 @@ func init() {
 		"internal/reflectlite.TypeOf": func(m *Machine, _ *frame, _ *ssa.Function, a []value) value {
 			return iface{t: types.Typ[types.UnsafePointer], v: opaque{kind: "rtype"}}
 		},
+		"internal/stringslite.Clone": func(m *Machine, _ *frame, _ *ssa.Function, a []value) value {
+			if s, ok := a[0].(string); ok {
+				return s
+			}
+			b := m.strBytes(a[0])
+			nb := make([]value, len(b))
+			copy(nb, b)
+			return m.mkStr(nb)
+		},
 		"internal/stringslite.Index":   nil,
 		"errors.Is":                    modelErrorsIs,
 		"errors.As":                    modelErrorsAs,
